@@ -16,7 +16,7 @@ REQUIRED_CLASSES = {"all": ["singleton-group", "unsorted-keys", "non-uniform-wei
 MIN_OUTCOMES = 10
 SINGLE_THREAD_RAPIDFUZZ = True
 
-KEYS = {"str": ("b", "a", "c"), "int": (10, 2, 33)}
+KEYS = {"str": ("b", "a", "c", "e", "d"), "int": (10, 2, 33, 4, 21)}
 FEAT = ("CA", "CAS")
 FEAT2 = ("x", "y")
 EDGES = [0, 1, 2, 3]
@@ -31,6 +31,12 @@ def spaces(tier):
             for g in itertools.product(range(3), repeat=n):
                 for f in itertools.product(range(2), repeat=n):
                     yield ("t1", g, f)
+
+    def gen_four_groups():
+        # four and five groups (the smallest tables whose condensed pair order differs from the mirrored order of a square matrix)
+        for g in ((0, 1, 2, 3), (3, 1, 0, 2), (0, 1, 2, 3, 3), (4, 0, 2, 1, 3), (0, 0, 1, 2, 3)):
+            for f in itertools.product(range(2), repeat=len(g)):
+                yield ("t1", g, f)
 
     def gen_two_feat():
         for n in range(2, (3 if q else 4) + 1):
@@ -64,6 +70,7 @@ def spaces(tier):
                             yield ("tb", g, h, f)
 
     return [
+        Space("four-and-five-groups", gen_four_groups, "tables of 4..5 rows in 4..5 groups (5 group patterns x every feature pattern)"),
         Space("one-group-column-one-feature", gen_one, "all tables of 2..4 (quick) / 2..5 (thorough) rows, group key in 3 keys, feature in 2 sequences; keys spelled as strings and ints; 4 weightings; 3 bases; bins in {edges, 0}", shards=64),
         Space("two-feature-columns", gen_two_feat, "all tables of 2..3(4) rows, 2 group keys, two binary feature columns (joint statistics)"),
         Space("numeric-feature-with-missing-cells", gen_missing, "all tables of 2..4(5) rows, 2 group keys, a numeric feature column over {1.5, 2.5, missing} with at least one missing cell; `on` given as a one-element list (joint form: a missing cell is one value)"),
@@ -265,6 +272,16 @@ def _check_table(acc, case, spell, gcol, hcol, fcol, f2col):
                 fail("pcDelta_grouped/edges", {"names": names, "rows": exp}, r if raised(r) else {"names": list(r.index), "rows": _vals(r).tolist()})
                 return
             acc.ok(("pdg", normalize, str(exp)), nontrivial=nt)
+        # maxseqs is pcDelta's per-group option: with maxseqs no smaller than the largest group nothing is sampled
+        acc.cls("maxseqs-not-smaller-than-any-group")
+        big = max(len(v) for v in gs.values())
+        if big < len(fcol):
+            r = acc.call(pyrepseq.pcDelta_grouped, df, by, "seq", bins=EDGES, normalize=False, maxseqs=big)
+            exp = [hist(gs[k], None, False) for k in names]
+            if not _cmp_matrix(r, exp) or len(r) != len(names):
+                fail("pcDelta_grouped/maxseqs-not-smaller-than-any-group", {"names": names, "rows": exp}, r if raised(r) else {"names": list(r.index), "rows": _vals(r).tolist()}, note="maxseqs=%d" % big)
+                return
+            acc.ok()
         # keyword arguments go to pcDelta unchanged: with a pseudocount c a group without any pair (a singleton) has the
         # prior c/(2c) in every bin, not NaN
         for pcnt in (0.5, 2):
